@@ -3,7 +3,7 @@ from harness import isolation
 
 ID = "C15"
 MODULES = ["HeraProofs.Props.C15"]
-GENERATED_DEPS = ["Ops.lean", "Exec.lean"]
+GENERATED_DEPS = ["OpFacts.lean", "Ops.lean", "Exec.lean"]
 EXPLANATION = ("Theorems over the run-loop model with guards and reset() regenerated from hera/vm.py: C15_reset_covers / "
                "C15_run_function (reset assigns every machine field, so a run depends on program, settings and prior output "
                "only), C15_throttle_cut and C15_throttle_uncut (the throttled loop ends in exactly the state of the unthrottled "
